@@ -273,6 +273,41 @@ def run(ctx, report):
         report.case(("handle-reuse", layout), nontrivial=True)
         report.count("kind:late-handle")
         shutil.rmtree(path, ignore_errors=True)
+    # ---- a dataset with MORE THAN TEN part files (part.10, part.11 exist): a rejected append must still not open any of them
+    for layout in ("hive", "hive-part"):
+        for (name, kind, op, upfront) in [r for r in rejections(layout) if r[0] in ("unencodable-value col1 rg1", "unknown-codec-column-c")]:
+            path = os.path.join(ctx.workdir("c18"), "dsm")
+            shutil.rmtree(path, ignore_errors=True)
+            df0 = make_existing(path, layout, 12, required=False, cat=False)
+            before = snapshot(path)
+            rec = {"check": "reject", "rejection": name + " (12 part files)", "kind": kind, "layout": layout, "row_groups": 12}
+            ctx.crumb(rec)
+            fs = RecFS()
+            raised = None
+            try:
+                op(path, fs)
+            except Exception as e:  # noqa
+                raised = canon_err(e)
+            after = snapshot(path)
+            probs = [] if raised is not None else ["the operation did not raise"]
+            changed = sorted(f for f in before if after.get(f) != before[f])
+            if changed:
+                probs.append(f"previously existing file(s) changed or vanished: {changed[:3]}")
+            try:
+                got = fastparquet.ParquetFile(path).to_pandas()
+                cols = ["a", "b", "c", "p"]
+                d = diff_frames(df0[cols].sort_values("a").reset_index(drop=True), got[cols].sort_values("a").reset_index(drop=True)) \
+                    if len(got) == len(df0) else [f"{len(got)} rows read, {len(df0)} before"]
+                if d:
+                    probs.append("content changed: " + "; ".join(d)[:150])
+            except Exception as e:  # noqa
+                probs.append("dataset unreadable afterwards: " + canon_err(e) + " " + str(e)[:80])
+            if probs:
+                report.violation({**rec, "what": "; ".join(probs)[:400], "raised": raised, "sig": "reject:many-parts"})
+            report.case((name, layout, 12), nontrivial=True)
+            report.count("kind:" + kind)
+            report.count("layout:" + layout + "-12")
+            shutil.rmtree(path, ignore_errors=True)
     report.exhaustive = True
 
 
